@@ -549,7 +549,7 @@ Definition parse_u32 (s : dstate) (kind : u32kind) (bytes : list Z) : sres :=
       if ty =? ct_fdAT then
         if negb (ready_fdat s) then poison s (EFormat FUnexpectedRestart)
         else if length <? 4 then poison s (EFormat FFdatShorterThanFourBytes)
-        else begin s (SU32 KSeq [])
+        else begin (s <| have_idat := true |>) (SU32 KSeq [])    (* image data has started, also without any IDAT *)
       else if ty =? ct_IDAT then
         if negb (ready_idat s) then poison s (EFormat FUnexpectedRestart)
         else begin (s <| have_idat := true |>) (SImage ty)
